@@ -356,14 +356,13 @@ def random_case(rng, maxw, max_bits, max_depth=4):
         g = Gen(rng, decl, max_depth)
         defs = []
         if rng.random() < 0.25:
-            # operators registered with Context.define: Boolean-valued,
-            # without LET/quantifiers (see finding define-unparsable)
-            g.allow_let = g.allow_quant = False
+            # operators registered with Context.define: Boolean-valued;
+            # LET and quantifiers allowed in their bodies since the repair
+            # of F14 (before it such a definition could not be used)
             for _ in range(rng.choice([1, 2])):
                 n = g.fresh.pop(0)
-                defs.append((n, g.bool_expr(2)))
+                defs.append((n, g.bool_expr(rng.choice([2, 2, 3]))))
                 g.scope[n] = ('bool', None)
-            g.allow_let = g.allow_quant = True
         tree = g.bool_expr(rng.choice([2, 3, 3, max_depth, max_depth]))
         if defs and not _uses_ops(tree, {n for n, _ in defs}):
             tree = ('bin', '/\\', tree, ('op', defs[-1][0]))
